@@ -146,6 +146,7 @@ fn layout_signature(env: &Env) -> u64 {
 }
 
 pub struct HistoryOutcome {
+    pub query_log: Vec<(String, Result<QOut, QErr>)>,
     pub violations: Vec<Violation>,
     pub counters: BTreeMap<String, u64>,
     pub layout_sig: u64,
@@ -241,7 +242,7 @@ pub fn history_body(plan: &Plan, out: Arc<Mutex<Option<HistoryOutcome>>>) {
         env.collect_panics("close");
     }
     env.count_n("poison_errors_seen", rt::core::with_ctx(|c| c.poison_seen));
-    *out.lock().unwrap() = Some(HistoryOutcome { violations: env.violations.clone(), counters: env.counters.clone(), layout_sig: sig, maintenance });
+    *out.lock().unwrap() = Some(HistoryOutcome { query_log: std::mem::take(&mut env.query_log), violations: env.violations.clone(), counters: env.counters.clone(), layout_sig: sig, maintenance });
 }
 
 /// the background flush thread only acts when the WAL limits are exceeded
@@ -342,6 +343,40 @@ fn search_columns(env: &mut Env, table: &str, pattern: &str, ctx: &str) {
 
 /// Run a sequential-history plan in one simulated execution.
 pub fn run_history(plan: &Plan) -> RunResult {
+    match &plan.alt {
+        None => run_history_one(plan).0,
+        Some(alt) => {
+            // C02: two realisations of the same logical table and the same queries
+            let (mut a, qa) = run_history_one(plan);
+            let (b, qb) = run_history_one(alt);
+            a.stats.executions += b.stats.executions;
+            a.stats.steps += b.stats.steps;
+            a.stats.sched_points += b.stats.sched_points;
+            a.stats.ctx_switches += b.stats.ctx_switches;
+            a.stats.timers_fired += b.stats.timers_fired;
+            a.stats.sim_ns += b.stats.sim_ns;
+            a.stats.fs_effects += b.stats.fs_effects;
+            a.stats.signature ^= b.stats.signature.rotate_left(21);
+            a.stats.nontrivial |= b.stats.nontrivial;
+            for (k, v) in b.stats.counters {
+                *a.stats.counters.entry(k).or_insert(0) += v;
+            }
+            for mut v in b.violations {
+                v.detail = format!("[realisation B] {}", v.detail);
+                a.violations.push(v);
+            }
+            if a.violations.is_empty() {
+                if let Some(v) = crate::sql::differential(&qa, &qb) {
+                    a.violations.push(v);
+                }
+                *a.stats.counters.entry("differential_query_pairs".into()).or_insert(0) += qa.len().min(qb.len()) as u64;
+            }
+            a
+        }
+    }
+}
+
+pub fn run_history_one(plan: &Plan) -> (RunResult, Vec<(String, Result<QOut, QErr>)>) {
     let t0 = std::time::Instant::now();
     FAILING_REQUESTS_EXPECTED.store(plan.knob("failing_requests_expected", 0) != 0, std::sync::atomic::Ordering::SeqCst);
     let out: Arc<Mutex<Option<HistoryOutcome>>> = Arc::new(Mutex::new(None));
@@ -354,8 +389,10 @@ pub fn run_history(plan: &Plan) -> RunResult {
     let mut stats = stats_from_report(&rep);
     let mut maintenance = 0;
     let mut layout = 0;
+    let mut qlog = Vec::new();
     match ho {
         Some(h) => {
+            qlog = h.query_log;
             violations = h.violations;
             stats.counters = h.counters;
             maintenance = h.maintenance;
@@ -369,7 +406,7 @@ pub fn run_history(plan: &Plan) -> RunResult {
     stats.signature = layout ^ rep.sched_hash.rotate_left(17);
     stats.nontrivial = maintenance > 0;
     stats.wall_us = t0.elapsed().as_micros() as u64;
-    RunResult { violations, stats }
+    (RunResult { violations, stats }, qlog)
 }
 
 pub fn stats_from_report(rep: &sim::SimReport) -> RunStats {
